@@ -212,3 +212,64 @@ prop(
         "an injected close failure still releases the descriptor (Linux semantics)",
     ],
 )
+
+prop(
+    "C12",
+    title="Start leaves the caller untouched and gives the child a clean signal state",
+    level="fault_enumeration",
+    engine="real",
+    campaigns=[dict(bin="C12.rel", sweep=True, random=dict(quick=2000, thorough=40000))],
+    level_text=("Snapshot equality of the calling thread's signal mask, all 62 observable dispositions (handler, mask, flags), working directory identity and environ (pointer and "
+                "content) around reproc_start on every return path: every single fault point of every scenario (quick) and pairs (thorough), each with a generated parent signal "
+                "state (random blocked set, ignored and handled signals). For started programs, SigBlk/SigIgn/SigCgt from the child's own /proc/self/status at entry."),
+    level_note="Faults as in C04. Signals the harness itself depends on (KILL, STOP, SEGV, BUS, FPE, ILL, ABRT, TRAP, CHLD, 32-39) are not manipulated; real-time signals are not asserted in the child.",
+    technique="exhaustive single-fault and paired-fault injection at the libc boundary x generated parent signal states, snapshot-equality invariant + the child's own report",
+    rule=(FAULT_SCENARIOS + " x every fault point x errnos x a tape-generated parent signal state (untouched / some / many signals blocked, ignored, handled with SA_RESTART or not). "
+          "Non-trivial: the parent blocked something and ignored or handled something, or a fault fired at or after the parent's mask change. Distinct: fault identities + parent state."),
+    essential=dict(quick=["single-fault", "fault-free", "parent-blocks-and-handles", "fault-at-or-after-mask-change", "failed-start", "successful-start"]),
+    exhaustive=dict(quick=True, thorough=True),
+    exhaustive_scope="all single fault points of the 17 scenarios on both sides of fork (parent signal state sampled per case)",
+    assumptions=[
+        "a fault injected into the restoring pthread_sigmask call itself is excluded by the property's wording",
+        "called from the main thread; the thread-local nature of the mask is covered by C20's engine",
+    ],
+)
+
+prop(
+    "C05",
+    title="No descriptor, memory or process leak, no foreign or double close, on any path",
+    level="fault_enumeration",
+    engine="real",
+    campaigns=[dict(bin="C05.rel", sweep=True, random=dict(quick=3000, thorough=80000))],
+    level_text=("Ledger invariants kept by the shim at the libc boundary: every close is of a descriptor the library created and still had open; every free matches one live allocation; after "
+                "destroy the descriptor table (numbers and identities) equals the one before reproc_new, no allocation is outstanding, no child start failed on or that was waited for is "
+                "unreaped; user handles, FILEs and the parent's 0-2 keep their identity. Checked on every single fault point of start (quick) and pairs (thorough), incl. close and "
+                "allocation failures, and on generated call histories (wait/stop/terminate/kill/read/write/close/poll/pid, child exits and writes) with faults injected into the later calls."),
+    level_note="Leaks inside libc are invisible to the ledger. The ASan/UBSan build additionally traps double free and use after free.",
+    technique="exhaustive single/paired fault injection + rapidcheck-generated call histories with late faults; resource-ledger invariant at the libc boundary",
+    rule=(FAULT_SCENARIOS + " x fault points x errnos; random: scenario x 0-2 start faults x 1-14 generated operations x 0-2 faults in later calls. "
+          "Non-trivial: a failed start, an injected fault that fired, a late fault, or a scenario with user-owned objects (handle/FILE/parent streams). Distinct: fault identities + operation list."),
+    essential=dict(quick=["single-fault", "fault-free", "failed-start", "late-fault", "generated-history", "fault:close", "fault:malloc"]),
+    exhaustive=dict(quick=True, thorough=True),
+    exhaustive_scope="all single fault points of the 17 start scenarios; histories and late faults are sampled",
+    assumptions=["an injected close failure still releases the descriptor (Linux)", "reads are only issued when they cannot block (nonblocking mode, data pending, or child gone)"],
+)
+
+prop(
+    "C06",
+    title="Only the library's own, still-unreaped child is ever signalled or waited for",
+    level="fault_enumeration",
+    engine="real",
+    campaigns=[dict(bin="C06.rel", sweep=True, random=dict(quick=4000, thorough=80000))],
+    level_text=("The shim's kill and waitpid refuse (and record) any target that is not the positive pid of a live child forked for the handle - nothing else ever reaches the kernel. "
+                "Checked over every single fault point of start followed by wait/terminate/kill on handles that start reported as running (quick), pairs (thorough), and generated histories "
+                "of terminate/kill/wait/stop around the child's exit and after reap: after a successful wait, terminate and kill return 0 and send nothing."),
+    level_note="Pid recycling by the OS cannot be forced; the check shows its precondition (signalling or waiting after reap, or with a pid that is not the child's) never occurs.",
+    technique="exhaustive single/paired fault injection + rapidcheck-generated histories; target invariant enforced inside the interposed kill/waitpid",
+    rule=(FAULT_SCENARIOS + " x fault points; random: histories of 2-12 operations from {wait(0|15|3000), terminate, kill, stop(3 random actions), child exits with a random code}. "
+          "Non-trivial: a terminate/kill/wait/stop issued after a status was returned, or a start that reported success under a fault. Distinct: fault identities + operation names."),
+    essential=dict(quick=["single-fault", "call-after-reap", "start-succeeded-under-fault", "generated-history"]),
+    exhaustive=dict(quick=True, thorough=True),
+    exhaustive_scope="all single fault points of the 17 start scenarios; histories are sampled",
+    assumptions=["one operation of a kind per child at a time (README, Multithreading)"],
+)
